@@ -576,6 +576,13 @@ def _inv_atom(bn):
         v = c.fresh_real('inv')
         idx = c.new_atom(v, k)
         bz = SymReal(bn.p).z3()
+        if c.check_div:
+            # side obligation of every division: can the denominator be zero here?
+            r, m = c._check(bz == 0)
+            if r == 'sat':
+                c.div_zero.append(m)
+            elif r == 'unknown':
+                c.notes.append('division-guard-unknown')
         c.add_axiom(v * bz == 1)
         c.div_guards.append(bz)
         c.inv_of[idx] = SymReal(bn.p)
